@@ -191,12 +191,18 @@ def run(ctx):
                    and gen.civil(src.msgs[j - 1].ns, c["tz"])[0] < gen.civil(src.msgs[j].ns, c["tz"])[0]]
             if f29:
                 glued = src.msgs[f29[0]].token
+                # the 29 February messages that directly follow it (same day) share its fate
+                run = {glued}
+                j = f29[0] + 1
+                while j < len(src.msgs) and gen.civil(src.msgs[j].ns, c["tz"])[:3] == gen.civil(src.msgs[f29[0]].ns, c["tz"])[:3]:
+                    run.add(src.msgs[j].token)
+                    j += 1
                 gl = [g for g in got if g[0] == glued]
                 wl = [w for w in want if w[0] == glued]
                 # (got != want here) -- in such a file every variant is affected through that one message: it is printed with the
                 # predecessor's date, as part of the predecessor (so a window that selects the predecessor prints it too), or
                 # re-ordered in a merge
-                others_ok = [g for g in got if g[0] != glued] == [w for w in want if w[0] != glued]
+                others_ok = [g for g in got if g[0] not in run] == [w for w in want if w[0] not in run]
                 if others_ok or (wl and (not gl or gl[0][1] != wl[0][1])):
                     ctx.violation("C11|feb-29-message-directly-after-a-year-wrap|dated-as-its-predecessor",
                                   "message %s (29 February, predecessor in the previous year) is printed with its predecessor's date" % glued, src_dir=c["d"],
